@@ -361,6 +361,10 @@ pub fn check_lit(lit: &Lit, digits_opt: bool) -> CaseResult {
                         }
                     }
                     Got::Err(e) if e == "number out of range" && near_overflow(&x) => Ok(()),
+                    // as for decimal literals below: with leading-digit symbols a
+                    // digit-initial token that is not a representable number is
+                    // read as a symbol; the statement does not cover that option
+                    Got::Other(_) if digits_opt && lit_starts_with_digit(lit) && near_overflow(&x) => Ok(()),
                     other => Err((
                         sig(&format!("got={}", got_class(other))),
                         format!("{:?} should be a float approximating {} but parsed to {:?}", clip(&text, 120), clip(&v.to_decimal(), 60), other),
